@@ -12,6 +12,7 @@ on promise `p` — it put one callback on `p._resolvers` (branch `.res`) and one
 `calls rid b s.log`: how often the branch-`b` callback of that `then()` call has been invoked so far.
 -/
 import RedunModel.Lemmas.PromiseSpec
+import RedunModel.Lemmas.PromiseOrder
 namespace RedunModel.C13
 open RedunModel.Promise
 
@@ -170,6 +171,43 @@ example : demo.stack.length = 0 ∧ demo.regs = [0, 0, 0] ∧
     calls 0 .res demo.log = 1 ∧ calls 1 .res demo.log = 1 ∧ calls 2 .res demo.log = 1 ∧
     calls 0 .rej demo.log = 0 := by decide
 
+/-! ## chained promises -/
+
+/-- `wrapper` with a plain (non-promise) return value resolves the chained promise with it. -/
+theorem chained_plain_value (r : Val) (q : Nat) (s : State) (hr : ∀ p, r ≠ .prom p) :
+    finish r q s = settle .res q r s := by
+  unfold finish
+  cases r with
+  | prom p => exact absurd rfl (hr p)
+  | _ => rfl
+
+/-- a callback that raises rejects the chained promise with the exception -/
+theorem chained_raise (arg : Val) (e q : Nat) (s : State) :
+    kont arg (.wrapper (.raise e) q) s = settle .rej q (.err e) s := rfl
+
+/-- **Adoption, partial.** When a callback returns promise `r`, `wrapper` makes one more `then()` call on `r`
+(so `exactly_once`, `invoked_only_as_settled`, `other_branch_never` apply to it: its callback of the branch `r`
+settles on runs exactly once, with `r`'s value) ... -/
+theorem adopts_partial_registers (r q : Nat) (s : State) (hr : r < s.heap.length) :
+    (finish (.prom r) q s).regs = s.regs ++ [r] := by
+  unfold finish
+  exact thenOp_regs (s := emit _ s) hr
+
+/-- ... and that callback is `q.do_resolve` / `q.do_reject`: run on a pending chained promise `q` it gives `q` the
+adopted branch and value (and by `first_wins` it changes nothing if `q` was settled before).  Missing for the
+full end-to-end statement ("`q` ends with the outcome of `r` unless user code settled `q` itself"): a proof that
+nothing else in the library settles `q` between the adoption and that callback; the correspondence check and the
+oracle `C13-chained-outcome` cover it on the generated histories only. -/
+theorem adopts_partial_effect (b : Br) (q q' : Nat) (v : Val) (s : State) (hq : status s q = some .pending) :
+    status (callFn (.adopt b q) q' v s) q = some (.settled b v) := by
+  unfold callFn
+  exact status_settle_pending (s := push (.finish v q') s) hq b v
+
+/-- non-vacuity / end-to-end instance: `p0.then(f returning p1)`; `p1` is rejected later; the chained promise 2
+ends rejected with `p1`'s error. -/
+example : status (execAll 100 [.new, .new, .then_ 0 (some (.script 1 [] (.ret (.prom 1)))) none,
+    .settle .res 0 (.int 1), .settle .rej 1 (.err 5)] init) 2 = some (.settled .rej (.err 5)) := by rfl
+
 /-! ## registration order -/
 
 /-- `then()` call numbers on promise `p` whose branch-`b` callback has been invoked, in invocation order -/
@@ -192,6 +230,49 @@ theorem order_refuted_registered_during_notification : ∃ s, Reach s ∧ s.stac
   have := h 0 .res
   rw [order_refuted_witness.1] at this
   revert this; decide
+
+
+/-- What is provable of the ordering clause (**partial**: the full statement `RegistrationOrder` is refuted above).
+If the `then()` call number `r2` was made while no running notification loop of its promise had callbacks waiting
+(`s.during[r2]? = some false`; in particular every call made from outside the promise's own callbacks), then at the
+moment its callback was invoked (log = `l1 ++ invoke r2 .. :: l2`, newest first) every earlier `then()` call `r1` on
+the same promise had already had its callback of that branch invoked.  Missing for full strength: calls made
+from inside a notification of the same promise (they run at once, before the callbacks still waiting). -/
+theorem order_partial {s : State} (h : Reach s) {r1 r2 p : Nat} {b : Br} {v : Val} {l1 l2 : List Event}
+    (hlt : r1 < r2) (h1 : s.regs[r1]? = some p) (h2 : s.regs[r2]? = some p) (hd : s.during[r2]? = some false)
+    (hl : s.log = l1 ++ Event.invoke r2 b v :: l2) : calls r1 b l2 = 1 :=
+  h.pinv.log r1 r2 b v l1 l2 hlt ⟨p, h1, h2⟩ hd hl
+
+/-- the lists of a pending promise and the running notification loops are in registration order -/
+theorem lists_in_registration_order {s : State} (h : Reach s) :
+    (∀ (p : Nat) (pr : Prom), s.heap[p]? = some pr → ∀ b, (pick b pr).Pairwise RidLt) ∧
+    (∀ v todo, Frame.notify v todo ∈ s.stack → todo.Pairwise RidLt) := ⟨h.pinv.heap, h.pinv.frames⟩
+
+/-- the flag is what it is said to be: recorded by `then()` itself; false whenever nothing is running -/
+theorem during_recorded (s : State) (p : Nat) (r j : Option Fn) (hp : p < s.heap.length) :
+    (thenOp p r j s).during = s.during ++ [waiting p s] := by
+  rcases thenOp_cases p r j s with ⟨h, _⟩ | ⟨pr, _, ⟨_, h⟩ | ⟨b, v, _, h⟩⟩
+  · rw [List.getElem?_eq_none_iff] at h; omega
+  · rw [h]
+  · rw [h]
+theorem not_waiting_when_idle (s : State) (p : Nat) (hq : s.stack = []) : waiting p s = false := by
+  simp [waiting, hq]
+
+/-- non-vacuity on the history of the finding: calls #0 (f1), #1 (f2) unflagged, #2 (f3, made inside f1) flagged;
+f2 (unflagged) ran after f1. -/
+example : demo.during = [false, false, true] ∧ invokedOrder demo 0 .res = [0, 2, 1] := by decide
+
+/-! ## Promise.all and wait_promises: the collector records the theorems below talk about -/
+
+/-- `Promise.all(ps)` (mode `.all`) / `wait_promises(ps)` (mode `.wait`) on existing promises creates the next
+collector record, with exactly these inputs, and returns a new promise (`target`). -/
+theorem collector_created {m : Mode} {ps : List Nat} {s : State} (h : refsOk ps s = true) :
+    ∃ r, (collect m ps s).colls[s.colls.length]? = some r ∧ r.mode = m ∧ r.subs = ps ∧ r.target = s.heap.length ∧
+      (collect m ps s).heap.length = s.heap.length + 1 := collect_creates h
+
+/-- ... and the record keeps its kind, inputs and returned promise for the rest of the history. -/
+theorem collector_stable {s s' : State} (h : Evolves s s') {a : Nat} {r : Coll} (hr : s.colls[a]? = some r) :
+    ∃ r', s'.colls[a]? = some r' ∧ r'.mode = r.mode ∧ r'.subs = r.subs ∧ r'.target = r.target := h.cext a r hr
 
 /-! ## Promise.all -/
 
